@@ -1179,8 +1179,27 @@ def _pubify(it):
     return t
 
 
+SKEL_TOK = re.compile(r'\b(if|else|match|while|loop|for|return|break|continue)\b|(=>)|(\?)(?=\s*[;,.)\]}])')
+
+
+def skeleton(text):
+    """control-flow skeleton of a function: the sequence of control keywords, match arrows and `?` operators
+    (after comment stripping and the R15 loop normalisation).  Expressions, names, constants and calls are not part
+    of it.  Used only to tell whether a function still has the structure its proof script (loop contracts woven by
+    ordinal, entry hints) was written for."""
+    t = strip_attrs_and_comments(text)
+    try:
+        t = rewrite_loop_break(t)
+    except Exception:
+        pass
+    t = re.sub(r'"(?:[^"\\]|\\.)*"', '""', t)
+    toks = [m.group(1) or m.group(2) or m.group(3) for m in SKEL_TOK.finditer(t)]
+    return hashlib.sha256(' '.join(toks).encode()).hexdigest()[:12], len(toks)
+
+
 def _fn_meta(it, src):
-    return {'src': src, 'sha256': hashlib.sha256(it.text.encode()).hexdigest()[:16]}
+    sk, n = skeleton(it.text)
+    return {'src': src, 'sha256': hashlib.sha256(it.text.encode()).hexdigest()[:16], 'skeleton': sk, 'skeleton_tokens': n}
 
 
 def _derives_for(idx, it):
